@@ -336,8 +336,14 @@ class C23(Property):
                 co = {s_: ufx(v) for s_, v in c["coeffs"].items()}
                 dist = {k_: [ufx(v) for v in vs] for k_, vs in c["dists"].items()}
 
+                wts = {k_: [ufx(v) for v in vs] for k_, vs in c.get("weights", {}).items()}
+
                 def val(name, scalar):
-                    return abtem.distributions.from_values(dist[name]) if name in dist else scalar
+                    # envelope / aperture parameters may carry non-uniform weights (a gaussian focal spread does): the weights belong to the
+                    # ensemble mean, each member's envelope must still be the scalar run's (round-3 seed C23-r3 multiplied them in)
+                    if name in dist:
+                        return abtem.distributions.from_values(dist[name], weights=np.asarray(wts[name])) if name in wts else abtem.distributions.from_values(dist[name])
+                    return scalar
 
                 sym = c["symbol"]
                 coe = dict(co)
@@ -460,6 +466,8 @@ class C23(Property):
             mk = {"semiangle_cutoff": lambda: rng.uniform(3, 40), "focal_spread": lambda: rng.uniform(5, 100), "angular_spread": lambda: rng.uniform(0.1, 2),
                   sym: lambda: rng.uniform(-1, 1) * (math.pi if sym.startswith("phi") else SCALE[int(sym[1])] * (0.01 if c["precision"] == "float32" else 1))}
             c["dists"] = {n: [fx(mk[n]()) for _ in range(rng.randint(1, 3))] for n in names}
+            c["weights"] = {n: [fx(rng.choice([0.25, 0.5, 1.0, 1.75, 3.0])) for _ in c["dists"][n]]
+                            for n in names if n != sym and rng.random() < 0.5}
             if c["precision"] == "float32":
                 c["coeffs"] = {}
         if chk == "ctf-wiener":
